@@ -4,7 +4,7 @@ import OH.Model.Syntax
 (`opening-hours-syntax/src/parser.rs` + `grammar.pest`): years 1900–9999, months 1–12, days 1–31,
 weeks 1–53, weekdays 0–6, steps ≥ 1 (and within `u8`/`u16`), nth arrays of length 5, times ≤ 48:00 with
 start ≤ 24:00, event offsets within ±24:00, day offsets within `i64`, at least one time span per
-rule, no `repeats`, a non-empty rule list whose first rule is `Normal`.
+rule, `repeats` (ignored by the evaluator) within 24:00, a non-empty rule list whose first rule is `Normal`.
 That the parser only produces such expressions is a theorem about the parser model (C05); here it
 is the hypothesis under which the evaluator theorems are stated.  Core-only imports.
 -/
@@ -50,7 +50,7 @@ def Time.wfStop : Time → Bool
   | .fixed m => m ≤ 2880
   | .variable _ off => -1440 ≤ off && off ≤ 1440
 
-def TimeSpan.wf (t : TimeSpan) : Bool := t.start.wfStart && t.stop.wfStop && t.repeats.isNone
+def TimeSpan.wf (t : TimeSpan) : Bool := t.start.wfStart && t.stop.wfStop && (match t.repeats with | none => true | some r => 0 ≤ r && r ≤ 1440)
 
 def Rule.wf (r : Rule) : Bool := r.day.wf && !r.time.isEmpty && r.time.all (·.wf)
 
